@@ -21,6 +21,10 @@ package c02
 //	oN      ok | stay | err | undeliv | silent | dies   outcome script of task N for this command
 //	        (error reply staying in the source state / error reply with state ERROR / master answers 503 /
 //	        never answers / terminal status update instead of a reply); `-` for "whatever"
+//	        | (late BASE D)    (LAST step only, not together with loss marks) the task does BASE = ok | stay | err D ms
+//	        after it got the command (a timer inside the simulated task). Whether that is an acknowledgement depends on
+//	        the time-out the core waits for THIS target with: the `ResponseTimeout` of the per-target copy of the command
+//	        (MakeSingleTarget), 90 s, CONFIGURE 120 s. Such a case takes min(D, time-out) of real time.
 //	        | (xfail BASE WHEN UPD) | (afail BASE WHEN UPD)    (ControlEnvironment requests only)
 //	        the executor (xfail) / the agent (afail) of task N is lost — Mesos FAILURE event — while the command is
 //	        outstanding: BASE = ok | stay | err | silent is what the task does with the command; WHEN = after: the
@@ -44,6 +48,10 @@ package c02
 //	(ctl <EV> <rpc> <state> <after> (<i> ...))     ControlEnvironment
 //	(ctl <EV> <rpc> <state> <after> (<i> ...) (lost <i> ...))   …during which the executor / agent of the live tasks
 //	                                               <i> … was lost (read off the master's task table)
+//
+//	Every entry ends in (dl <ms> ...): parallel to the command list, the ResponseTimeout (ms) carried by the command the
+//	master saw go to each commanded task — the time-out the core's Servent waits for that target with (the command sent IS
+//	the per-target copy whose time-out arms RunCommand's timer).
 //
 //	rpc    ok | err | hang      gRPC status (hang: no answer within hangCeiling while the core shows the transition in progress)
 //	state  state in the reply, `-` if none
@@ -99,10 +107,13 @@ type lossMark struct {
 }
 
 type stepSpec struct {
-	ev    string
-	outs  []string    // (base) outcome per task
-	marks []*lossMark // per task, nil = no mark; nil slice = no mark in this step
+	ev     string
+	outs   []string        // (base) outcome per task
+	marks  []*lossMark     // per task, nil = no mark; nil slice = no mark in this step
+	delays []time.Duration // per task, `(late BASE D)`; nil slice = no delayed answer in this step
 }
+
+func (st stepSpec) delayed() bool { return st.delays != nil }
 
 func (st stepSpec) hasLoss() bool { return st.marks != nil }
 
@@ -179,6 +190,19 @@ func parseScenario(in string) (*scenario, error) {
 				st.outs = append(st.outs, o.Str())
 				continue
 			}
+			if o.Len() == 3 && !o.At(0).IsList && o.At(0).Str() == "late" {
+				// the answer comes after a delay
+				base, d := o.At(1).Str(), o.At(2).Int()
+				if st.ev == "DIE" || o.At(1).IsList || (base != "ok" && base != "stay" && base != "err") || d <= 0 {
+					return nil, fmt.Errorf("bad late outcome")
+				}
+				if st.delays == nil {
+					st.delays = make([]time.Duration, len(sc.tasks))
+				}
+				st.delays[j-1] = time.Duration(d) * time.Millisecond
+				st.outs = append(st.outs, base)
+				continue
+			}
 			// loss mark
 			if o.Len() != 4 || i == first || st.ev == "DIE" {
 				return nil, fmt.Errorf("bad loss mark")
@@ -193,6 +217,10 @@ func parseScenario(in string) (*scenario, error) {
 			}
 			st.marks[j-1] = &lossMark{agent: k == "afail", before: when == "before", upd: o.At(3).Bool()}
 			st.outs = append(st.outs, base)
+		}
+		if st.delayed() && (st.hasLoss() || i != n.Len()-1) {
+			// what a task that answers after the core gave up is worth to the next command is not modelled
+			return nil, fmt.Errorf("a delayed answer outside the last step, or together with a loss")
 		}
 		if st.hasLoss() {
 			for _, o := range st.outs {
@@ -271,6 +299,9 @@ func script(w *sim.World, sc *scenario, st stepSpec) error {
 		out, ok := outcomeOf(o)
 		if !ok {
 			return fmt.Errorf("unknown outcome %q", o)
+		}
+		if st.delayed() {
+			out.Delay = st.delays[i]
 		}
 		w.SetOutcome(sim.Selector{Class: fmt.Sprintf("tc%d", i)}, simEvent[st.ev], out)
 	}
@@ -443,6 +474,103 @@ func loseDuring(w *sim.World, p *lossPlan, ch chan rpcResult, mark int) error {
 		return fmt.Errorf("the request was answered before the core had handled the loss (nothing keeps the command outstanding)")
 	}
 	dbg("loss handled while the command is outstanding: tasks %v", p.lost)
+	return nil
+}
+
+// deadlinesSince: `(dl ms …)`, parallel to commandsSince: the ResponseTimeout of the (first) transition command `ev` the
+// master saw go to each commanded task after trace position mark, in ms (a fraction of a ms is rounded UP, so that it never
+// equals a whole number by rounding).
+func deadlinesSince(w *sim.World, mark int, ev string) *sx.Node {
+	byID := map[string]int{}
+	for _, t := range w.Tasks() {
+		var i int
+		if _, err := fmt.Sscanf(t.Class, "tc%d", &i); err == nil {
+			byID[t.TaskID] = i
+		}
+	}
+	first := map[int]int64{}
+	for _, r := range w.Trace()[mark:] {
+		if r.Dir == "call" && r.Type == "MESSAGE" && r.Cmd != nil && r.Cmd.Name == "MesosCommand_Transition" && r.Cmd.Event == ev {
+			if i, ok := byID[r.Cmd.TaskID]; ok {
+				if _, seen := first[i]; !seen {
+					first[i] = r.Cmd.TimeoutNs
+				}
+			}
+		}
+	}
+	var is []int
+	for i := range first {
+		is = append(is, i)
+	}
+	sort.Ints(is)
+	l := sx.L(sx.A("dl"))
+	for _, i := range is {
+		ms := first[i] / int64(time.Millisecond)
+		if first[i]%int64(time.Millisecond) != 0 {
+			ms++
+		}
+		l.Add(sx.I(int(ms)))
+	}
+	return l
+}
+
+// delaysHeld: the scripted delays of a request took effect as scripted — never a verdict, only a guard. For every commanded
+// task with a delayed answer: its reply left the master D ± delayTolerance after the master saw the command, or — the
+// request having been answered before the reply was due — has not left at all; and D is not within raceMargin of the
+// time-out the command carried (there the reply and the core's timer race: nothing to learn from such a run).
+const (
+	delayTolerance = 4 * time.Second
+	raceMargin     = 5 * time.Second
+)
+
+func delaysHeld(w *sim.World, sc *scenario, st stepSpec, mark int, ev string, answered time.Time) error {
+	if !st.delayed() {
+		return nil
+	}
+	byID := map[string]int{}
+	for _, t := range w.Tasks() {
+		var i int
+		if _, err := fmt.Sscanf(t.Class, "tc%d", &i); err == nil {
+			byID[t.TaskID] = i
+		}
+	}
+	type seen struct {
+		called, replied time.Time
+		tmo             time.Duration
+	}
+	by := map[int]*seen{}
+	for _, r := range w.Trace()[mark:] {
+		switch {
+		case r.Dir == "call" && r.Type == "MESSAGE" && r.Cmd != nil && r.Cmd.Name == "MesosCommand_Transition" && r.Cmd.Event == ev:
+			if i, ok := byID[r.Cmd.TaskID]; ok && by[i] == nil {
+				by[i] = &seen{called: r.When, tmo: time.Duration(r.Cmd.TimeoutNs)}
+			}
+		case r.Dir == "event" && r.Type == "MESSAGE" && r.MsgType == "MesosCommandResponse":
+			for _, id := range r.TaskIDs {
+				if i, ok := byID[id]; ok && by[i] != nil && by[i].replied.IsZero() {
+					by[i].replied = r.When
+				}
+			}
+		}
+	}
+	for i, d := range st.delays {
+		s := by[i]
+		if d == 0 || s == nil {
+			continue // answers at once, or was not commanded (not ACTIVE)
+		}
+		if diff := d - s.tmo; diff > -raceMargin && diff < raceMargin {
+			return &sim.InfraError{What: fmt.Sprintf("task %d answers %s after a command that carries the time-out %s: a race, no verdict", i, d, s.tmo)}
+		}
+		if s.replied.IsZero() {
+			if late := answered.Sub(s.called); late > d+delayTolerance {
+				return &sim.InfraError{What: fmt.Sprintf("task %d: no reply %s after the command although one was scripted after %s", i, late, d)}
+			}
+			continue
+		}
+		if took := s.replied.Sub(s.called); took < d-delayTolerance || took > d+delayTolerance {
+			return &sim.InfraError{What: fmt.Sprintf("task %d: the reply scripted after %s left after %s", i, d, took)}
+		}
+	}
 	return nil
 }
 
@@ -861,6 +989,9 @@ func runScenario(in string) (string, error) {
 			if !ok {
 				return "", fmt.Errorf("unknown outcome %q", o)
 			}
+			if first.delayed() {
+				out.Delay = first.delays[i]
+			}
 			w.SetOutcome(sim.Selector{Class: fmt.Sprintf("tc%d", i)}, "CONFIGURE", out)
 		}
 	}
@@ -878,7 +1009,7 @@ func runScenario(in string) (string, error) {
 	}()
 	// DEPLOY waits (up to deploy_timeout, + retries for an unplaceable task) unless every task starts; CONFIGURE waits for
 	// its response timeout if a commanded task is scripted not to answer. Otherwise the request takes milliseconds.
-	expectFast := len(sc.steps) == 0 || !slow(first.outs)
+	expectFast := len(sc.steps) == 0 || !(slow(first.outs) || first.delayed())
 	for _, t := range sc.tasks {
 		if t.launch != "ok" {
 			expectFast = false
@@ -898,7 +1029,7 @@ func runScenario(in string) (string, error) {
 		return "", err
 	}
 	if hang {
-		obs.Add(sx.L(sx.A("new"), sx.A("hang"), sx.A("-"), sx.A(hangState), commandsSince(w, mark, "CONFIGURE")))
+		obs.Add(sx.L(sx.A("new"), sx.A("hang"), sx.A("-"), sx.A(hangState), commandsSince(w, mark, "CONFIGURE"), deadlinesSince(w, mark, "CONFIGURE")))
 		return obs.String(), nil
 	}
 	if res.err != nil && !isGrpc(res.err) {
@@ -906,6 +1037,11 @@ func runScenario(in string) (string, error) {
 	}
 	replied := time.Now()
 	dbg("NewEnvironment -> %q err %v", res.state, res.err)
+	if len(sc.steps) > 0 {
+		if err = delaysHeld(w, sc, first, mark, "CONFIGURE", replied); err != nil {
+			return "", err
+		}
+	}
 	if Debug != nil && res.err != nil && os.Getenv("C02_DUMP_NEW_ERR") != "" {
 		dumpCore(w) // probe only: goroutine dump + copy of the world's directory when NewEnvironment failed
 	}
@@ -985,6 +1121,7 @@ func runScenario(in string) (string, error) {
 	} else if stuck {
 		newObs.Add(sx.A("verdict-lost"))
 	}
+	newObs.Add(deadlinesSince(w, mark, "CONFIGURE"))
 	obs.Add(newObs)
 	if rpc != "ok" || state != "CONFIGURED" || len(sc.steps) == 0 || hasUndeliv(first.outs) {
 		return obs.String(), nil
@@ -1018,7 +1155,7 @@ func runScenario(in string) (string, error) {
 			r, err := w.Client().ControlEnvironment(ctx, &pb.ControlEnvironmentRequest{Id: id, Type: op})
 			ch <- rpcResult{state: r.GetState(), err: err}
 		}()
-		expectFast := !slow(st.outs)
+		expectFast := !(slow(st.outs) || st.delayed())
 		if plan != nil {
 			if err = loseDuring(w, plan, ch, mark); err != nil {
 				return "", err
@@ -1032,13 +1169,16 @@ func runScenario(in string) (string, error) {
 			return "", err
 		}
 		if hang {
-			obs.Add(sx.L(sx.A("ctl"), sx.A(st.ev), sx.A("hang"), sx.A("-"), sx.A(hangState), commandsSince(w, mark, simEvent[st.ev])))
+			obs.Add(sx.L(sx.A("ctl"), sx.A(st.ev), sx.A("hang"), sx.A("-"), sx.A(hangState), commandsSince(w, mark, simEvent[st.ev]), deadlinesSince(w, mark, simEvent[st.ev])))
 			return obs.String(), nil
 		}
 		if res.err != nil && !isGrpc(res.err) {
 			return "", &sim.InfraError{What: "ControlEnvironment transport", Err: res.err}
 		}
 		dbg("ControlEnvironment %s -> %q err %v", st.ev, res.state, res.err)
+		if err = delaysHeld(w, sc, st, mark, simEvent[st.ev], time.Now()); err != nil {
+			return "", err
+		}
 		rpc, state = "ok", res.state
 		if res.err != nil {
 			rpc, state = "err", "-"
@@ -1062,6 +1202,7 @@ func runScenario(in string) (string, error) {
 			}
 			o.Add(l)
 		}
+		o.Add(deadlinesSince(w, mark, simEvent[st.ev]))
 		obs.Add(o)
 		if rpc != "ok" || state != dstOf[st.ev] || hasUndeliv(st.outs) || critLost {
 			break
